@@ -767,8 +767,15 @@ def retain_table(repo):
     return gen_retain_inventory.retain_table(repo)
 
 
+def template_sites(repo):
+    """C19 / C09 (generated level): inventory of the emitted text of the Thrift templates (tools/gen_template_inventory.py)"""
+    sys.path.insert(0, os.path.dirname(os.path.abspath(__file__)))
+    import gen_template_inventory
+    return gen_template_inventory.template_sites(repo)
+
+
 GENERATORS = {"fam/gen/coq/Generated/GenTable.v": gen_table, "fam/gen/coq/Generated/LitTable.v": lit_table,
-              "fam/gen/coq/Generated/RetainTable.v": retain_table}
+              "fam/gen/coq/Generated/RetainTable.v": retain_table, "fam/gen/coq/Generated/TemplateSites.v": template_sites}
 
 if __name__ == "__main__":
     sys.stdout.write(gen_table(sys.argv[1] if len(sys.argv) > 1 else "/repo"))
